@@ -89,31 +89,31 @@ func (t *SymbolTable) Index(s string) uint64 {
 }
 
 func (t *SymbolTable) Str(sym String) string {
-	if int(sym) < 1024 {
+	if sym < 1024 {
 		if int(sym) > len(DEFAULT_SYMBOLS)-1 {
 			return fmt.Sprintf("<invalid symbol %d>", sym)
 		} else {
 			return DEFAULT_SYMBOLS[int(sym)]
 		}
 	}
-	if int(sym)-1024 > len(*t)-1 {
+	if uint64(sym)-1024 >= uint64(len(*t)) {
 		return fmt.Sprintf("<invalid symbol %d>", sym)
 	}
-	return (*t)[int(sym)-1024]
+	return (*t)[int(uint64(sym)-1024)]
 }
 
 func (t *SymbolTable) Var(v Variable) string {
-	if int(v) < 1024 {
+	if v < 1024 {
 		if int(v) > len(DEFAULT_SYMBOLS)-1 {
 			return fmt.Sprintf("<invalid variable %d>", v)
 		} else {
 			return DEFAULT_SYMBOLS[int(v)]
 		}
 	}
-	if int(v)-1024 > len(*t)-1 {
+	if uint64(v)-1024 >= uint64(len(*t)) {
 		return fmt.Sprintf("<invalid variable %d>", v)
 	}
-	return (*t)[int(v)-1024]
+	return (*t)[int(uint64(v)-1024)]
 }
 
 func (t *SymbolTable) Clone() *SymbolTable {
